@@ -295,6 +295,23 @@ var flagPool = []func(t *rapid.T) Flag{
 	},
 	func(t *rapid.T) Flag { return Flag{"log-file-max-backups", "9", "logging.max_backups", "9"} },
 	func(t *rapid.T) Flag { return Flag{"log-file-compress", "false", "logging.compress", "false"} },
+	// flags that repeat the value the file (here: the default) already holds: still an override that must keep winning
+	func(t *rapid.T) Flag { return Flag{"listen", ":9999", "proxy.listen", ":9999"} },
+	func(t *rapid.T) Flag { return Flag{"ca-cert", "ssl/ca.crt", "proxy.ca_cert", "ssl/ca.crt"} },
+	func(t *rapid.T) Flag { return Flag{"cache-dir", "var/cache/", "cache.file.dir", "var/cache/"} },
+	func(t *rapid.T) Flag {
+		return Flag{"webserver-listen", "localhost:8080", "webserver.listen", "localhost:8080"}
+	},
+	func(t *rapid.T) Flag { return Flag{"no-dashboard", "false", "webserver.dashboard_disabled", "false"} },
+	func(t *rapid.T) Flag { return Flag{"no-api", "false", "webserver.api_disabled", "false"} },
+	func(t *rapid.T) Flag { return Flag{"log-level", "INFO", "logging.level", "0"} },
+	func(t *rapid.T) Flag { return Flag{"log-file", "var/proxy.log", "logging.file", "var/proxy.log"} },
+	func(t *rapid.T) Flag {
+		return Flag{"log-file-max-size", "500M", "logging.max_size", fmt.Sprint(int64(500 << 20))}
+	},
+	func(t *rapid.T) Flag { return Flag{"log-file-max-backups", "3", "logging.max_backups", "3"} },
+	func(t *rapid.T) Flag { return Flag{"log-file-compress", "true", "logging.compress", "true"} },
+	func(t *rapid.T) Flag { return Flag{"log-to-stdout", "false", "logging.to_stdout", "false"} },
 }
 
 type cliOut struct {
@@ -391,6 +408,9 @@ var subCLI = ev.Register("cli-overrides",
 					expected = fmt.Sprint(uv)
 				}
 			}
+			if expected == def[p] && def[p] == f.Want {
+				continue // the flag repeats what the file holds anyway: nothing to tell apart
+			}
 			if fileVal == f.Value && expected != f.Value && fileVal != expected {
 				return ev.Failf("cli.override-persisted", "flag -%s=%s was written into var/config.json (%s = %v)", f.Name, f.Value, p, v)
 			}
@@ -422,10 +442,15 @@ var subCLI = ev.Register("cli-overrides",
 	})
 
 func TestCLIOverrides(t *testing.T) {
-	subCLI.CheckSalt(t, 5, ev.N(60, 3000), func(t *rapid.T) CLICase {
+	subCLI.CheckSalt(t, 5, ev.N(120, 4000), func(t *rapid.T) CLICase {
 		var c CLICase
+		seen := map[string]bool{}
 		for _, idx := range rapid.SliceOfNDistinct(rapid.IntRange(0, len(flagPool)-1), 1, 5, rapid.ID[int]).Draw(t, "flags") {
-			c.Flags = append(c.Flags, flagPool[idx](t))
+			f := flagPool[idx](t)
+			if !seen[f.Name] {
+				seen[f.Name] = true
+				c.Flags = append(c.Flags, f)
+			}
 		}
 		for i := rapid.IntRange(0, 3).Draw(t, "nupdates"); i > 0; i-- {
 			d, _ := cfgkit.DrawDoc(t, false)
